@@ -1,3 +1,4 @@
+import RactorModel.Lemmas.GenAdmission
 import RactorModel.Lemmas.TreeKids
 import RactorModel.Extracted
 
@@ -329,6 +330,34 @@ example : let s := steps true init [.spawn, .spawn, .setStatus 0 .running, .setS
     (raceRun true false s 0 1 0 1 9).2 = false ∧ (raceRun true false s 0 1 0 0 9).2 = true ∧
       (raceRun true false s 0 1 0 0 9).1.t.killed 1 = true ∧ (raceRun true false s 0 1 0 0 9).1.pc = .done := by decide
 
+/-! ### Translator tie (rs2lean): kernel-checked equivalence between the definitions that
+`extract/rs2lean.py` regenerates from the CURRENT Rust source on every run
+(`RactorModel/Generated/*.lean`) and the hand-written model functions the theorems above are
+about. A semantic change of the Rust function changes the generated text and these stop checking. -/
+
+section XlateTie
+open Generated.Admission GenAdmission
+
+theorem generated_status_discriminants_eq_model (s : ActorStatus) : (absStatus s).toNat = s.toNat := by
+  cases s <;> rfl
+
+theorem generated_status_abs_surjective (t : Tree.Status) : ∃ s, absStatus s = t := by
+  cases t
+  · exact ⟨.Unstarted, rfl⟩
+  · exact ⟨.Starting, rfl⟩
+  · exact ⟨.Running, rfl⟩
+  · exact ⟨.Upgrading, rfl⟩
+  · exact ⟨.Draining, rfl⟩
+  · exact ⟨.Stopping, rfl⟩
+  · exact ⟨.Stopped, rfl⟩
+
+/-- the condition under which `ActorCell::terminate` kills an actor of its worklist -/
+theorem generated_terminate_kill_condition_eq_model (enq : Except MessagingErr Unit) (actor : ActorCell) :
+    ActorCell.terminate_kills enq actor = Tree.killCond Tree.codeFixed (absStatus actor.status) := by
+  rcases actor with ⟨s⟩
+  cases s <;> simp [ActorCell.terminate_kills, Tree.killCond, Tree.codeFixed, absStatus, ActorStatus.toNat, Tree.Status.toNat]
+end XlateTie
+
 end C05
 
 #print axioms C05.invariant
@@ -359,3 +388,7 @@ end C05
 #print axioms C05.kill_condition_matches_source
 #print axioms C05.cleanup_order_matches_source
 #print axioms C05.status_discriminants_match_source
+-- rs2lean tie
+#print axioms C05.generated_status_discriminants_eq_model
+#print axioms C05.generated_status_abs_surjective
+#print axioms C05.generated_terminate_kill_condition_eq_model
